@@ -29,6 +29,15 @@ VLOSS = "ixai/utils/validators/loss.py"
 MULTI = "ixai/utils/tracker/multi_value.py"
 
 M = [
+    # ---- the pre-repair behaviour of D11-D15, kept as mutants -------------------------------------------
+    ("C06", "D11-subset-walked-once-per-sample", MARG, "        feature_subset = list(feature_subset)\n        predictions = []\n", "        predictions = []\n"),
+    ("C19", "D11-tree-subset-walked-once-per-sample", TREEI, "        feature_subset = list(feature_subset)\n        predictions = []\n", "        predictions = []\n"),
+    ("C09", "D12-accepts-a-zero-draw-at-p0", GEO, "            if random_float < self.constant_probability:\n", "            if random_float <= self.constant_probability:\n"),
+    ("C06", "D13-empty-subset-draws-a-row", MARG, "        if not feature_subset:\n            return {}\n", ""),
+    ("C16", "D14-bound-needs-tracked-variance", BASE, "math.sqrt(variances.get(feature_name, 0.))", "math.sqrt(variances[feature_name])"),
+    ("C16", "D14-delta-normalisation-of-nothing", BASE, "            factor = 0  # nothing estimated yet\n            if importance_values_list:\n                factor = max(importance_values_list) - min(importance_values_list)\n",
+     "            factor = max(importance_values_list) - min(importance_values_list)\n"),
+    ("C01", "D15-mean-of-identical-outputs-rounds", BASE, "        if all(value == label_values[0] for value in label_values):\n", "        if False:\n"),
     # ---- C01 ---------------------------------------------------------------------------------------
     ("C01", "chain-carry-dropped", INC, "                sample_loss = feature_loss\n", "                pass\n"),
     ("C01", "marginal-tracker-fed-model-loss", INC, "self._marginal_loss_tracker.update(marginal_loss)",
@@ -66,8 +75,8 @@ M = [
      "            self._importance_trackers.update(marginal_contributions)\n            variances = {\n                feature: (marginal_contributions[feature] - self.importance_values[feature])**2\n",
      "            stale = self.importance_values\n            self._importance_trackers.update(marginal_contributions)\n            variances = {\n                feature: (marginal_contributions[feature] - stale.get(feature, 0.))**2\n"),
     # ---- C04 ---------------------------------------------------------------------------------------
-    ("C04", "never-last-row", MARG, "    def _sample_marginals(features, feature_subset):\n        rand_idx = random.randrange(len(features))",
-     "    def _sample_marginals(features, feature_subset):\n        rand_idx = random.randrange(max(1, len(features) - 1))"),
+    ("C04", "never-last-row", MARG, "            return {}\n        rand_idx = random.randrange(len(features))",
+     "            return {}\n        rand_idx = random.randrange(max(1, len(features) - 1))"),
     ("C04", "order-adjacent-swap-only", INC,
      "            permutation_chain = [self.feature_names[idx]\n                                 for idx in np.random.permutation(len(self.feature_names))]\n",
      "            permutation_chain = list(self.feature_names)\n            if len(permutation_chain) > 1:\n                _j = np.random.randint(len(permutation_chain) - 1)\n                permutation_chain[_j], permutation_chain[_j + 1] = permutation_chain[_j + 1], permutation_chain[_j]\n"),
@@ -78,8 +87,8 @@ M = [
      "                    x_marginal = x_data[random.randint(0, len(x_data) - 1)]\n",
      "                    x_marginal = x_data[(n - 1 + random.randint(1, max(1, len(x_data) - 1))) % len(x_data)]\n"),
     ("C04", "pfi-rows-biased-to-recent", MARG,
-     "    def _sample_marginals(features, feature_subset):\n        rand_idx = random.randrange(len(features))",
-     "    def _sample_marginals(features, feature_subset):\n        rand_idx = max(random.randrange(len(features)), random.randrange(len(features))) if len(feature_subset) == 1 else random.randrange(len(features))"),
+     "            return {}\n        rand_idx = random.randrange(len(features))",
+     "            return {}\n        rand_idx = max(random.randrange(len(features)), random.randrange(len(features))) if len(feature_subset) == 1 else random.randrange(len(features))"),
     # ---- C05 ---------------------------------------------------------------------------------------
     ("C05", "divisor-off-by-one", BATCH,
      "            n_data = n\n        self.importance_values = {feature: sage_value / n_data\n                                  for feature, sage_value in sage_values.items()}\n        return self.importance_values\n\n    def explain_many_original(",
@@ -124,7 +133,7 @@ M = [
      "                self._algo_l_counter += (np.floor(\n                    np.log(random.random()) / np.log(1 - self._algo_wt)) + 1)\n",
      "                self._algo_l_counter += max(1, np.floor(\n                    np.log(random.random()) / np.log(1 - self._algo_wt)))\n"),
     # ---- C09 ---------------------------------------------------------------------------------------
-    ("C09", "acceptance-strict-complement", GEO, "            if random_float <= self.constant_probability:\n", "            if random_float >= 1 - self.constant_probability * 0.9:\n"),
+    ("C09", "acceptance-strict-complement", GEO, "            if random_float < self.constant_probability:\n", "            if random_float >= 1 - self.constant_probability * 0.9:\n"),
     ("C09", "slot-range", GEO, "                rand_idx = random.randrange(self.size)\n", "                rand_idx = random.randrange(max(1, self.size - 1))\n"),
     ("C09", "default-probability", GEO, "            self.constant_probability = 1 / self.size\n", "            self.constant_probability = 1 / (self.size + 1)\n"),
     # ---- C13 ---------------------------------------------------------------------------------------
